@@ -243,6 +243,36 @@ class Ctx:
                     merged["extra"][k] = merged["extra"].get(k, 0) + v
         return merged
 
+    # ------------------------------------------------------------ Apalache
+    def apalache(self, module, jobs, timeout=900):
+        """Run `apalache-mc check` jobs (list of (label, [args])) on spec/<module>.tla in parallel.  Every job must
+        end with "The outcome is: NoError"; anything else concerns the model only and is an infrastructure error."""
+        import concurrent.futures
+        def one(job):
+            label, args = job
+            d = tempfile.mkdtemp(prefix="apa-", dir=self.scratch)
+            shutil.copy(os.path.join(self.specdir, module + ".tla"), d)
+            e = dict(os.environ)
+            e["JAVA_TOOL_OPTIONS"] = "-Djava.io.tmpdir=%s" % d
+            e["TMPDIR"] = d
+            t = time.time()
+            p = subprocess.run(["timeout", str(timeout), "apalache-mc", "check", "--out-dir=" + os.path.join(d, "out")] + args +
+                               [module + ".tla"], cwd=d, env=e, stdout=subprocess.PIPE, stderr=subprocess.STDOUT,
+                               text=True, errors="replace")
+            ok = "The outcome is: NoError" in p.stdout
+            shutil.rmtree(d, ignore_errors=True)
+            return label, ok, time.time() - t, p.stdout[-1500:]
+        with concurrent.futures.ThreadPoolExecutor(max_workers=len(jobs)) as ex:
+            results = list(ex.map(one, jobs))
+        for label, ok, wall, tail in results:
+            if os.environ.get("VERIF_VERBOSE"):
+                print("  [apalache %s/%s: %s, %.1fs]" % (module, label, "NoError" if ok else "FAILED", wall))
+            if not ok:
+                raise Infra("apalache %s/%s did not end with NoError:\n%s" % (module, label, tail))
+            self.tlc_runs.append({"module": module, "cfg": "apalache:" + label, "generated": 0, "distinct": 0,
+                                  "wall_s": round(wall, 1)})
+        return results
+
     def write_cases(self, name, cases):
         path = os.path.join(self.scratch, name)
         with open(path, "w") as f:
